@@ -141,7 +141,7 @@ def run_session(spec_session, st, flavour="native", record=None, judge_recovery=
     ops = make_ops(rng, h, spec_session["n"], kind)
     violations = []
     timeout = spec_session.get("watchdog", 20) * (1 if flavour == "native" else 6)
-    d = core.Driver(flavour, timeout=timeout)
+    d = core.Driver(flavour, timeout=timeout, stack_kb=8192 if flavour == "native" else 65536)
     history = []
     ids = []
     try:
@@ -242,6 +242,8 @@ def minimise_panic(v):
             return False
         last = res[-1]
         name = (rest[-1][0] if rest else "set_mathml")
+        if rest and res[0]["r"] != "ok":
+            return False          # the getter would answer about the previous expression
         return last["r"] == "panic" and panic_sig(name, last["p"]) == want_sig
     try:
         tree = gen.from_xml(ops[0][1])
@@ -497,7 +499,7 @@ def replay(witness):
 
 # --- predicates of the known findings (over the minimal witness) ---------------------------------------------------------------------------
 PSEUDO = set("\"'*`ª°²³´¹º‘’“”„‟′″‴‵‶‷⁗")
-SCRIPTED = ("msub", "msup", "msubsup", "munder", "mover", "munderover")
+SCRIPTED = ("msub", "msup", "msubsup", "munder", "mover", "munderover", "mmultiscripts")
 
 
 def _witness_tree(v):
@@ -567,9 +569,19 @@ def pred_empty_like_base_before_fence(v, params):
         kids = n.kids or []
         for i, k in enumerate(kids):
             if k.tag in SCRIPTED and k.kids and canon_run.is_empty_like(k.kids[0]):
-                if any(s_.kids is None and s_.tag == "mo" and (s_.text or "") in ")]}⟩⌉⌋|‖" for s_ in kids[i + 1:]):
+                if any(s_.kids is None and s_.tag == "mo" and (s_.text or "") in _right_fences() for s_ in kids[i + 1:]):
                     return True
     return False
+
+
+_RF = []
+
+
+def _right_fences():
+    if not _RF:
+        from . import opdict
+        _RF.append(set(t for t, forms in opdict.load().items() if any(f == "RIGHT_FENCE" for f, _ in forms)) | set("|‖"))
+    return _RF[0]
 
 
 core.PREDICATES["c08_styled_letters"] = pred_styled_letters
